@@ -194,6 +194,7 @@ fn check_family(f: &FamGrammar, maxlen: usize, res: &mut ShardResult) {
     let mut parser = Parser::new();
     parser.set_language(&l.language).unwrap();
     for ix in families::token_strings(f.alphabet.len(), maxlen) {
+        if families::skip_string(f, &ix) { continue; }
         let sep = if f.has_ws_extras { " " } else { "" };
         let (text, toks) = text_of(f, &ix, sep);
         crate::case!("{}", json!({"part": "family", "grammar_id": f.id, "text": crate::util::bytes_json(&text)}));
